@@ -154,3 +154,11 @@ for _w in ['ada_is_valid', 'ada_get_href', 'ada_get_username', 'ada_get_password
            'ada_can_parse', 'ada_can_parse_with_base']:
     F(_w, _w)
 F('agg_get_origin', A + 'get_origin', cls='agg', mangled=r'_ZNK3ada14url_aggregator10get_originB5cxx11Ev')
+
+# ---- ada::url members (twins of the aggregator's)
+U = 'ada::url::'
+for _m in ['parse_ipv4', 'parse_ipv6', 'parse_opaque_host', 'parse_host', 'parse_port', 'parse_scheme', 'get_href_size', 'get_components', 'set_port', 'set_username',
+           'set_password', 'set_hash', 'set_search', 'set_pathname', 'set_protocol', 'cannot_have_credentials_or_port', 'has_credentials', 'get_pathname', 'get_href',
+           'get_host', 'get_hostname', 'get_port', 'get_search', 'get_hash', 'get_username', 'get_password', 'get_protocol', 'update_base_port', 'clear_port',
+           'update_base_hostname', 'has_empty_hostname', 'has_hostname', 'has_valid_domain', 'set_scheme', 'copy_scheme', 'set_protocol_as_file', 'has_port']:
+    F('url_' + _m, U + _m, cls='url', mangled=r'_ZNK?3ada3url\d+%s(B5cxx11)?E.*' % _m)
